@@ -97,6 +97,13 @@ CheckSoftmax(e, A) ==
     ELSE IF ~e.flag THEN "NotFinite"
     ELSE IF IsSoftmax(A, e.out) /\ SoftmaxTop(A, e.out) THEN "" ELSE "NotProbability"
 
+CheckNormHalf(e, A) ==
+    IF A.k = "e" \/ Len(A.d) = 0 \/ Len(e.ia) # 1 THEN "Malformed"
+    ELSE IF e.status # "ok" THEN "Panicked"
+    ELSE IF Len(e.out) # 1 THEN "Shape"
+    ELSE IF e.out[1] = NONFIN THEN "NotFinite"
+    ELSE IF NormHalfOK(ty, A, e.ia[1], e.out[1]) THEN "" ELSE "Value"
+
 CheckArgmax(e, A) ==
     IF ~IsM(A) \/ ~NonEmpty(A) THEN "Malformed"
     ELSE IF e.status # "ok" THEN "Panicked"
@@ -115,6 +122,7 @@ Check(e, A, B) ==
       [] e.op \in QRatOps -> CheckQRat(e, A, B)
       [] e.op \in VarOps  -> CheckVar(e, A)
       [] e.op = "softmax_mut" -> CheckSoftmax(e, A)
+      [] e.op \in NormHalfOps -> CheckNormHalf(e, A)
       [] e.op = "argmax"  -> CheckArgmax(e, A)
       [] e.op \in {"unique", "v_unique"} -> CheckUnique(e, A)
       [] OTHER -> "UnknownOp"
@@ -124,16 +132,27 @@ Check(e, A, B) ==
 (* per operation (accepted result), one per rejected incompatible call,    *)
 (* and a few for the cases on which the statement is silent.               *)
 (***************************************************************************)
-AllOps == RegOps \cup QIntOps \cup EqOps \cup QRatOps \cup VarOps \cup {"softmax_mut", "argmax", "unique", "v_unique"}
+AllOps == RegOps \cup QIntOps \cup EqOps \cup QRatOps \cup VarOps \cup NormHalfOps \cup {"softmax_mut", "argmax", "unique", "v_unique"}
 RejName(op) == "reject_" \o op
 HitNames == AllOps \cup { RejName(op) : op \in RejectOps }
-            \cup {"eq_false_on_shape_mismatch", "unconstrained_div0", "unconstrained_softmax_matrix",
+            \cup {"eq_false_on_shape_mismatch", "eq_false_same_size_other_shape", "approx_false_same_size_other_shape",
+                  "eq_true", "eq_false_same_shape", "binary_mixed_layout", "unconstrained_div0", "unconstrained_softmax_matrix",
                   "unique_sorted", "argmax_tie", "inplace_equals_copy"}
 
 HitSet(e, A, B, cl) ==
     IF cl # "" THEN {}
     ELSE (IF e.status = "panic" THEN {RejName(e.op)} ELSE {e.op})
          \cup (IF e.op \in EqOps /\ A.k # "e" /\ B.k # "e" /\ ~SameShape(A, B) THEN {"eq_false_on_shape_mismatch"} ELSE {})
+         \* the two equality tests, separately, on operands of different shape but equal size (the case a
+         \* comparison of the storage buffers alone gets wrong), and their TRUE / FALSE answers on equal shapes
+         \cup (IF e.op = "eq" /\ IsM(A) /\ IsM(B) /\ ~SameShape(A, B) /\ Len(A.d) = Len(B.d)
+               THEN {"eq_false_same_size_other_shape"} ELSE {})
+         \cup (IF e.op = "approximate_eq" /\ IsM(A) /\ IsM(B) /\ ~SameShape(A, B) /\ Len(A.d) = Len(B.d)
+               THEN {"approx_false_same_size_other_shape"} ELSE {})
+         \* a binary call one of whose operands (only) descends from a transpose / column-major constructor
+         \cup (IF e.ev = "Op" /\ e.b # 0 /\ IsM(A) /\ IsM(B) /\ e.atr # e.btr THEN {"binary_mixed_layout"} ELSE {})
+         \cup (IF e.op = "eq" /\ e.status = "ok" /\ e.bool THEN {"eq_true"} ELSE {})
+         \cup (IF e.op = "eq" /\ e.status = "ok" /\ ~e.bool /\ A.k # "e" /\ B.k # "e" /\ SameShape(A, B) THEN {"eq_false_same_shape"} ELSE {})
          \cup (IF e.op \in {"div", "div_mut", "v_div", "v_div_mut"} /\ e.status = "ok" /\ \E x \in 1..Len(B.d) : B.d[x] = 0
                THEN {"unconstrained_div0"} ELSE {})
          \cup (IF e.op = "softmax_mut" /\ ~IsVecShaped(A) THEN {"unconstrained_softmax_matrix"} ELSE {})
